@@ -10,6 +10,7 @@
 -/
 import Driver.Codec
 import Driver.Bt
+import Driver.Bb
 
 open Codec
 
@@ -32,6 +33,15 @@ def runBt (lines : List String) : List String :=
         (st', acc.2 ++ ["> " ++ op] ++ o)) (st, [])
       out
 
+def runBb (lines : List String) : List String :=
+  let (_, out) := lines.foldl (fun (acc : BB × List String) op =>
+    let (st', o) := Bb.step acc.1 op
+    (st', acc.2 ++ ["> " ++ op] ++ o)) (({} : BB), [])
+  out
+
+def runName (lines : List String) : List String :=
+  (lines.map (fun l => ["> " ++ l, Bb.nameStep l])).flatten
+
 partial def loop (hin hout : IO.FS.Stream) : IO Unit := do
   let line ← hin.getLine
   if line.isEmpty then return ()
@@ -42,6 +52,8 @@ partial def loop (hin hout : IO.FS.Stream) : IO Unit := do
       hout.putStrLn s!"scenario {name}"
       let out := match fam with
         | "bt" => runBt body.toList
+        | "bb" => runBb body.toList
+        | "name" => runName body.toList
         | _ => ["bad-family"]
       for l in out do hout.putStrLn l
       hout.putStrLn "end"
